@@ -70,7 +70,9 @@ class FilteredSeq(SVal):
         n = z3.simplify(rank)
         if z3.is_int_value(n):
             n = n.as_long()
-        return SBytes([CSeg(f, 0, n)], mutable)
+        seg = CSeg(f, 0, n)
+        seg.filtered_from = self  # lets a later whole-sequence predicate (strict decoding) be stated over the kept items
+        return SBytes([seg], mutable)
 
 
 class SRange(SVal):
